@@ -518,8 +518,7 @@ void prop(Src& s, Ctx& ctx) {
         }
         deliver(sut, syn, lay);
         my_seq += 1;
-        VCHECK(ctx, sut.flow->sack_permitted() && sut.flow->ack_tracking_enabled(), "C19:Flow:handshake-flags",
-               "sack_permitted()=" << sut.flow->sack_permitted() << " ack_tracking_enabled()=" << sut.flow->ack_tracking_enabled());
+        if (!sut.flow->ack_tracking_enabled()) VFAIL(ctx, "C19:internal:flow-setup", "enable_ack_tracking() had no effect");
         if (mode == 2) {
             // the SYN|ACK acknowledges the peer's SYN: the tracker starts at ISN+1
             model.start(base);
